@@ -151,6 +151,9 @@ func genLen(rng *rand.Rand, width int, big bool) int {
 			return rng.Intn(200)
 		}
 	}
+	if rng.Intn(12) == 0 { // longer than a 64 KiB line buffer (bufio.Scanner's default limit), up to a few of them
+		return 65530 + rng.Intn(80000)
+	}
 	switch rng.Intn(8) {
 	case 0:
 		return 4095
